@@ -213,7 +213,8 @@ def spec_old(ex, st, clo):
 
 
 SPEC_BUILTINS = {'old': spec_old, 'forall': spec_forall, 'exists': spec_exists, 'implies': spec_implies, 'iff': spec_iff,
-                 'ite': spec_ite, 'isinf': spec_isinf, 'finite': spec_finite, 'isneginf': spec_isneginf}
+                 'ite': spec_ite, 'isinf': spec_isinf, 'finite': spec_finite, 'isneginf': spec_isneginf,
+                 'logaddexp': lambda ex, st, a, b: np_logaddexp(ex, st, a, b)}
 
 
 # ------------------------------------------------------------------------------------------------
@@ -245,6 +246,10 @@ def _len(ex, st, v, node=None):
         return z3.Length(v.s)
     if isinstance(v, PyList):
         return st.store[v.buf].shape[0]
+    if isinstance(v, OptVal):
+        if not ex.spec_mode:
+            ex.emit(st, 'not-none', z3.Not(v.is_none), node, 'len() of a value that may be None')
+        return _len(ex, st, v.some, node)
     raise Unsupported('len of %r' % (v,))
 
 
@@ -582,6 +587,33 @@ def np_exp(ex, st, a, **kw):
     return s_exp(a)
 
 
+LAEF = z3.Function('LAE', z3.RealSort(), z3.RealSort(), z3.RealSort())
+_y = z3.Real('y')
+LAE_AXIOMS = [(['LAE'], z3.ForAll([_x, _y], LAEF(_x, _y) == LAEF(_y, _x), patterns=[LAEF(_x, _y)])),
+              (['LAE'], z3.ForAll([_x, _y], z3.And(LAEF(_x, _y) > _x, LAEF(_x, _y) > _y), patterns=[LAEF(_x, _y)]))]
+
+
+def s_lae(a, b):
+    """log(exp(a) + exp(b)) over the reals extended with -inf (+inf propagates); the finite case is the uninterpreted,
+    commutative LAE with LAE(x, y) > max(x, y)"""
+    a, b = to_xreal(a), to_xreal(b)
+    val = z3.If(a.ninf, b.val, z3.If(b.ninf, a.val, LAEF(a.val, b.val)))
+    return XReal(z3.Or(a.pinf, b.pinf), z3.And(a.ninf, b.ninf), val)
+
+
+def np_logaddexp(ex, st, a, b, **kw):
+    ex.assumed.append('model: logaddexp over finite arguments is an uninterpreted commutative function with LAE(x,y) > max(x,y); '
+                      'logaddexp(-inf, y) = y')
+    if 'LAE' not in getattr(ex, '_lib_axioms', set()):
+        ex._lib_axioms = getattr(ex, '_lib_axioms', set()) | {'LAE'}
+        ex.axioms.extend(LAE_AXIOMS)
+    if isinstance(a, (ArrayVal, NDRef, PyList)) or isinstance(b, (ArrayVal, NDRef, PyList)):
+        r, obls = elementwise(s_lae, st, a, b)
+        ex.emit_all(st, 'shape', obls, kw.get('_node'))
+        return r
+    return s_lae(a, b)
+
+
 def _logical(fn):
     def model(ex, st, *args, **kw):
         r, obls = elementwise(lambda *xs: fn(*[truthy(x) for x in xs]), st, *args)
@@ -592,7 +624,7 @@ def _logical(fn):
 
 LIB = {
     'np.logical_and': _logical(band), 'np.logical_or': _logical(bor), 'np.logical_not': _logical(bnot),
-    'np.exp': np_exp, 'math.exp': np_exp,
+    'np.exp': np_exp, 'math.exp': np_exp, 'np.logaddexp': np_logaddexp,
     'np.array': np_array, 'np.asarray': np_asarray, 'np.fromiter': lambda ex, st, v, **kw: np_array(ex, st, v), 'np.arange': np_arange, 'np.full': np_full,
     'np.ones': np_ones, 'np.zeros': np_zeros, 'np.zeros_like': np_zeros_like, 'np.minimum': np_minimum,
     'np.maximum': np_maximum, 'np.copy': np_copy, 'np.sum': np_sum, 'np.any': np_any, 'np.all': np_all,
